@@ -29,6 +29,7 @@ type q04 struct {
 	nq         int
 	ad, cd, do bool
 	hasOpt     bool
+	extraShape int // where the OPT sits among other additional records: 0 alone, 1 first (a record follows), 2 last (a record precedes), 3 in the middle
 	qtype      uint16
 	qclass     uint16
 	name       string
@@ -54,7 +55,16 @@ func (q q04) msg() *dns.Msg {
 		if q.do {
 			o.SetDo()
 		}
+		other := func(n string) dns.RR {
+			return &dns.TXT{Hdr: dns.RR_Header{Name: n, Rrtype: dns.TypeTXT, Class: dns.ClassINET, Ttl: 0}, Txt: []string{"additional"}}
+		}
+		if q.extraShape == 2 || q.extraShape == 3 {
+			m.Extra = append(m.Extra, other("before.example."))
+		}
 		m.Extra = append(m.Extra, o)
+		if q.extraShape == 1 || q.extraShape == 3 {
+			m.Extra = append(m.Extra, other("after.example.")) // e.g. a SIG(0)/TSIG record, which must follow the OPT
+		}
 	}
 	return m
 }
@@ -66,7 +76,7 @@ func (q q04) opLine() string {
 func (q q04) cacheable() bool { return !q.resp && q.opcode == 0 && q.nq == 1 }
 
 func (q q04) String() string {
-	return fmt.Sprintf("{name=%q type=%d class=%d ad=%v cd=%v do=%v qr=%v opcode=%d nq=%d}", q.name, q.qtype, q.qclass, q.ad, q.cd, q.do, q.resp, q.opcode, q.nq)
+	return fmt.Sprintf("{name=%q type=%d class=%d ad=%v cd=%v do=%v qr=%v opcode=%d nq=%d additional-section-shape=%d}", q.name, q.qtype, q.qclass, q.ad, q.cd, q.do, q.resp, q.opcode, q.nq, q.extraShape)
 }
 
 func sameQuestion(a, b q04) bool {
@@ -85,6 +95,9 @@ func (r *Run) genQ04() q04 {
 	q.cd = r.Rng.Intn(2) == 0
 	q.do = r.Rng.Intn(2) == 0
 	q.hasOpt = q.do || r.Rng.Intn(2) == 0
+	if r.Rng.Intn(3) == 0 {
+		q.extraShape = 1 + r.Rng.Intn(3)
+	}
 	switch r.Rng.Intn(20) { // malformed / bypass stream
 	case 0:
 		q.resp = true
